@@ -4,10 +4,10 @@
 # alloc cfg template: alloc_cfg<Pocca, Pocma, Pocs, AlwaysEqual, SizeT, MaxSize, SocccToggle,
 #                               ConstructMembers>
 
-def cfg(pocca=0, pocma=0, pocs=0, ae=0, size_t="std::size_t", max_size=0, soccc=0, cm=0):
+def cfg(pocca=0, pocma=0, pocs=0, ae=0, size_t="std::size_t", max_size=0, soccc=0, cm=0, hint=0):
     b = lambda x: "true" if x else "false"
-    return "sim::alloc_cfg<%s, %s, %s, %s, %s, %dul, %s, %s>" % (
-        b(pocca), b(pocma), b(pocs), b(ae), size_t, max_size, b(soccc), b(cm))
+    return "sim::alloc_cfg<%s, %s, %s, %s, %s, %dul, %s, %s, %s>" % (
+        b(pocca), b(pocma), b(pocs), b(ae), size_t, max_size, b(soccc), b(cm), b(hint))
 
 
 def U(name, elem, alloc, ns, big=False, packs=()):
@@ -58,6 +58,11 @@ add("alloc_NM_ae000", NM, sim_alloc(NM, cfg(0, 0, 0, ae=1)), NSETS[3], packs=("a
 add("alloc_TM_ae111", TM, sim_alloc(TM, cfg(1, 1, 1, ae=1, soccc=1)), NSETS[4], packs=("alloc",))
 add("alloc_MO_010", MO, sim_alloc(MO, cfg(0, 1, 0)), NSETS[5], packs=("alloc",))
 add("alloc_NM_cm", NM, sim_alloc(NM, cfg(cm=1)), NSETS[0], packs=("alloc", "twin"))
+add("alloc_NM_hint", NM, sim_alloc(NM, cfg(pocma=1, hint=1)), NSETS[4], packs=("alloc",))
+add("alloc_CO_101", CO, sim_alloc(CO, cfg(1, 0, 1)), NSETS[1], packs=("alloc",))
+add("alloc_MN_011", MN, sim_alloc(MN, cfg(0, 1, 1, soccc=1)), NSETS[2], packs=("alloc",))
+add("alloc_MO_ae", MO, sim_alloc(MO, cfg(0, 0, 0, ae=1)), NSETS[3], packs=("alloc",))
+add("alloc_CO_111", CO, sim_alloc(CO, cfg(1, 1, 1)), NSETS[5], packs=("alloc",))
 
 # --- size: narrow size_type / max_size()
 add("size_NM_u8", NM, sim_alloc(NM, cfg(size_t="std::uint8_t")), (0, 2, 5), big=True, packs=("size",))
